@@ -96,11 +96,73 @@ var c01MoreShapes = []string{`-1`, `1.5`, `[]`, `{}`, `!!str`, `"5m"`, `5m`, `0s
 	`.inf`, `"{{ $labels.job }}"`, `"{{ $value | nope }}"`, `!!float 5`, `!!bool yes`, `yes`, `"5 m"`, `1h1h`, `-5m`, `5`, `"sum("`, `up{`}
 var c01KeyShapes = []string{`""`, `~`, `5`, `true`, `__name__`, `"a b"`, `a-b`, `[a]`, `{a: b}`, `!!str x`, `<<`, `1abc`, `"é"`, `null`, `''`, `? x`, `!!null n`}
 
+// shapes that probe the validation specific to one slot (every character class / boundary the check distinguishes);
+// part of the core set of that slot
+var c01SlotShapes = map[string][]string{
+	"record":    {`"a{b"`, `"a}b"`, `"a b"`, `1a`, `"a:b"`, `a-b`, `"é"`},
+	"alert":     {`"a b"`, `"{{ x }}"`},
+	"aexpr":     {`"sum("`, `up{`, `"1 +"`, `"up == "`},
+	"rexpr":     {`"sum("`, `"foo bar"`},
+	"for":       {`5m`, `0s`, `1.5m`, `-5m`, `1h1h`, `"5 m"`, `1y`, `5M`},
+	"keep":      {`0s`, `1.5m`, `-5m`, `m5`},
+	"ginterval": {`0s`, `1.5m`, `-5m`, `0`},
+	"goffset":   {`0s`, `-5m`, `1x`},
+	"glimit":    {`-1`, `1.0`, `0x10`, `1e3`, `18446744073709551615`, `9223372036854775808`, `"5"`, `!!int x`, `0o17`, `1_000`},
+	"gname":     {`"a b"`, `"{{ x }}"`},
+	"glabelv":   {`"{{ bad"`, `"a b"`},
+	"alabelv":   {`"{{ bad"`, `"{{ $labels.job }}"`, `"{{ .Foo | nope }}"`},
+	"annv":      {`"{{ bad"`, `"{{ end }}"`, `"{{ .Foo | nope }}"`},
+	"rlabelv":   {`"{{ bad"`},
+}
+
 type c01Deviation struct {
-	slot, shape, op string // op: "value", "key", "drop", "dup", "sibling"
+	slot, shape, op string // op: "value", "key", "drop", "dup", "sibling", "alias", "extra"
+}
+
+// op "extra": one more `key: value` line (shape) in the mapping that holds the slot (gname -> the group, alert -> the alerting
+// rule, record -> the recording rule, groups -> the top level): every key of every level, well-formed for its usual home,
+// placed in each mapping.
+var c01ExtraLines = []string{"groups: []", "name: other", "interval: 1m", "query_offset: 1m", "limit: 5", "labels: {extra: x}", "labels: {}",
+	"rules: []", "partial_response_strategy: warn", "source_tenants: [a]", "alert: Extra", "record: extra:rule", "expr: up",
+	"for: 5m", "for: 0s", "keep_firing_for: 1m", "keep_firing_for: 0s", "annotations: {extra: x}", "annotations: {}", "annotations: ~",
+	"for: ~", "keep_firing_for: ~", "<<: {for: 5m}"}
+var c01ExtraHomes = []string{"groups", "gname", "alert", "record"}
+
+// op "alias": the value of the slot is an alias; the anchors (one per kind of node) are defined by a first, valid group.
+var c01AnchorGroup = `- name: anchors
+  labels: &gl
+    team: infra
+  rules:
+  - alert: Anchors
+    expr: &e up == 0
+    for: &d 5m
+    labels: &l
+      severity: &s page
+    annotations: &a
+      summary: &t "Instance {{ $labels.instance }} down"
+      __name__: odd
+  - &r
+    record: anchored:rule
+    expr: up
+`
+var c01Anchors = []string{"e", "d", "l", "s", "a", "t", "gl", "r"}
+
+// op "names": several groups with the given names (relations between siblings: duplicates adjacent or not).
+var c01NamePatterns = []string{"a,a", "a,b,a", "a,b,b", "a,b,c,a", "a,b,c", "a,b,c,b"}
+
+func c01RenderNames(pattern string) string {
+	var b strings.Builder
+	b.WriteString("groups:\n")
+	for i, n := range strings.Split(pattern, ",") {
+		fmt.Fprintf(&b, "- name: %s\n  rules:\n  - record: r%d:x\n    expr: up\n", n, i)
+	}
+	return b.String()
 }
 
 func c01Render(dev c01Deviation) string {
+	if dev.op == "names" {
+		return c01RenderNames(dev.shape)
+	}
 	expand := func(lines []string, drop, dup, sibling string) []string {
 		var out []string
 		for _, l := range lines {
@@ -119,6 +181,10 @@ func c01Render(dev c01Deviation) string {
 				ind := len(l) - len(strings.TrimLeft(l, " -"))
 				out = append(out, strings.Repeat(" ", ind)+"bogus: x")
 			}
+			if dev.op == "extra" && slot != "" && slot == dev.slot && slot != "groups" {
+				ind := len(l) - len(strings.TrimLeft(l, " -"))
+				out = append(out, strings.Repeat(" ", ind)+dev.shape)
+			}
 		}
 		return out
 	}
@@ -132,11 +198,17 @@ func c01Render(dev c01Deviation) string {
 		sib = dev.slot
 	}
 	text := strings.Join(expand(c01Skeleton, drop, dup, sib), "\n")
+	if dev.op == "extra" && dev.slot == "groups" {
+		text += "\n" + dev.shape
+	}
 	group := strings.Join(expand(c01GroupLines, drop, dup, sib), "\n")
 	rules := strings.Join(expand(c01RuleLines, drop, dup, sib), "\n")
 	val := func(slot string) string {
 		if (dev.op == "value" || dev.op == "key") && dev.slot == slot {
 			return dev.shape
+		}
+		if dev.op == "alias" && dev.slot == slot {
+			return "*" + dev.shape
 		}
 		return c01Defaults[slot]
 	}
@@ -161,6 +233,9 @@ func c01Render(dev c01Deviation) string {
 				if slot == "GROUP" || slot == "RULES" {
 					if slot == "GROUP" {
 						line = subst(group, depth+1)
+						if dev.op == "alias" {
+							line = strings.TrimSuffix(c01AnchorGroup, "\n") + "\n" + line
+						}
 					} else {
 						line = subst(rules, depth+1)
 					}
@@ -172,7 +247,7 @@ func c01Render(dev c01Deviation) string {
 				if !isKey(slot) && v != "" && !strings.HasPrefix(v, "\n") {
 					v = " " + v
 				}
-				deviates := (dev.op == "value" || dev.op == "key") && dev.slot == slot
+				deviates := (dev.op == "value" || dev.op == "key" || dev.op == "alias") && dev.slot == slot
 				line = line[:i] + v + line[j+1:]
 				if deviates {
 					from = i + len(v) // never re-scan the injected shape
@@ -220,7 +295,7 @@ func c01Catalogue(r *rand.Rand, extra int) []c01Deviation {
 	var core, more []c01Deviation
 	core = append(core, c01Deviation{op: "none"})
 	for _, s := range c01ValueSlots {
-		for _, sh := range c01CoreShapes {
+		for _, sh := range append(append([]string{}, c01CoreShapes...), c01SlotShapes[s]...) {
 			core = append(core, c01Deviation{slot: s, shape: sh, op: "value"})
 		}
 		for _, sh := range c01MoreShapes {
@@ -228,6 +303,22 @@ func c01Catalogue(r *rand.Rand, extra int) []c01Deviation {
 		}
 		for _, op := range []string{"drop", "dup", "sibling"} {
 			core = append(core, c01Deviation{slot: s, op: op})
+		}
+	}
+	for _, s := range c01ValueSlots {
+		if s == "groups" {
+			continue // the anchors live below `groups`
+		}
+		for _, a := range c01Anchors {
+			core = append(core, c01Deviation{slot: s, shape: a, op: "alias"})
+		}
+	}
+	for _, pat := range c01NamePatterns {
+		core = append(core, c01Deviation{slot: "gname", shape: pat, op: "names"})
+	}
+	for _, home := range c01ExtraHomes {
+		for _, line := range c01ExtraLines {
+			core = append(core, c01Deviation{slot: home, shape: line, op: "extra"})
 		}
 	}
 	for _, s := range c01KeySlots {
